@@ -296,7 +296,7 @@ def flow_start(check: core.Check) -> dict:
     slices = FLOW_SLICES[check.tier]
     # quick: one self-test per oracle clause / deviation class; thorough: all
     sens = [("ConstraintFlow.sens_guard.cfg", "InvFlow"), ("ConstraintFlow.sens_widen.cfg", "InvFlow"),
-            ("ConstraintFlow.strict.cfg", "InvFlowStrict"), ("ConstraintFlow.strict5.cfg", "InvFlowStrict")]
+            ("ConstraintFlow.strict.cfg", "InvFlowStrict"), ("ConstraintFlow.sens_oldkey.cfg", "InvFlow")]
     if check.tier != "quick":
         sens += [("ConstraintFlow.sens_noguard.cfg", "InvFlow"), ("ConstraintFlow.sens_once.cfg", "InvFlow"),
                  ("ConstraintFlow.fixed.cfg", None), ("ConstraintFlow.fixed5.cfg", None)]
@@ -338,11 +338,13 @@ def flow_finish(check: core.Check, started: dict) -> None:
     fl = check.cov.setdefault("flow", {})
     fl["wall_s"] = {"tlc_slices_coverage_sensitivity (overlapping the Narrowing TLC runs)": round(t1 - t0, 1)}
     fl["sensitivity"] = (
-        "(quick runs sens_guard, sens_widen, strict, strict5; thorough all) "
+        "(quick runs sens_guard, sens_widen, strict, sens_oldkey; thorough all) "
         "InvFlow is violated when the Impl model's origin guard is reversed (the seeded-change family) or removed, when a loop body is "
         "visited once, and (FlowN2) when an assignment keeps the old definition nodes; InvFlowStrict (no deviation class) is violated on "
-        "the model of the code as found (strict.cfg), still violated with only proposed/C02-fix-4.diff on the loop slice (strict5.cfg) and "
-        "holds on the model with C02-fix-4 and C02-fix-5 (fixed.cfg, fixed5.cfg); corrupted observations (stale narrowing, "
+        "the model of the code as it is (strict.cfg: the open class saved-alternatives-negated-as-conjunction) and holds on the model with "
+        "proposed/C02-fix-4.diff as well (fixed.cfg, fixed5.cfg); InvFlow is violated when fake nodes are keyed by (statement, constraint) "
+        "as before repair a080673 (sens_oldkey.cfg: a saved condition re-applied on the second visit of a loop body overwrites its node, "
+        "definition cycle, cached placeholder Never); corrupted observations (stale narrowing, "
         "widened type, withheld CPython run) are flagged viol:FlowN1 / viol:FlowN2 / oracle:runs"
     )
     fl["slices"] = {}
@@ -374,9 +376,10 @@ def flow_finish(check: core.Check, started: dict) -> None:
     missing = {"asg", "save", "okflag", "use", "ret", "ifflag", "ifok", "ifc", "else", "end", "whflag", "whok", "whc", "ifwal", "ifand", "ifor"} - kinds
     if missing:
         raise core.MachineryError(f"flow token kinds never generated: {sorted(missing)}")
-    if not any(c["drops"] > 0 for c in cases) or not any(c["fakes"] > 1 for c in cases) or not any(c["overwritten"] > 0 for c in cases):
-        raise core.MachineryError("flow slice is vacuous: the origin guard never drops a constraint / no function stacks fake nodes / "
-                                  "no fake node is overwritten on a loop revisit")
+    if not any(c["drops"] > 0 for c in cases) or not any(c["fakes"] > 1 for c in cases):
+        raise core.MachineryError("flow slice is vacuous: the origin guard never drops a constraint / no function stacks fake nodes")
+    if any(c["overwritten"] > 0 for c in cases):
+        raise core.MachineryError("the model of the repaired node keying (a080673) overwrote a fake node")
     limit = FLOW_REPLAY_LIMIT[check.tier]
     fl["functions_model_checked"] = len(cases)
     fl["replay_exhaustive"] = len(cases) <= limit
